@@ -343,6 +343,7 @@ import QV.Proofs.AuditPlain
 import QV.Proofs.ServerSignedTable
 import QV.Proofs.ServerSignedPlain
 import QV.Proofs.ServerSignedCompare
+import QV.Proofs.ServerDecodeCongr
 
 namespace QV.C10
 open QV QV.Server QV.Writer QV.Tsig QV.ServerTsig
